@@ -35,7 +35,7 @@ from props import c05
 ID = 'C07'
 COQ_PROP = 'C07'
 LEVEL = 'proof'
-TRANSLATE = ['sql', 'disk']
+TRANSLATE = ['sql', 'disk', 'persistent']
 TRUSTED = [
     'SQLite WAL recovery and the release of file locks when a process dies (exercised by every kill point, not proved)',
     'os._exit(137) from the before-hook of the traced event stands for a kill at that instant: Python-level buffers are lost, '
@@ -128,6 +128,11 @@ def workloads():
                             ('rotate', {'op': 'rotate', 'steps': 1}), ('clear', {'op': 'clear'}), ('extend', {'op': 'extend', 'values': [new, 9]})):
             out.append(W('deque:%s:%s' % (cname, vname), 'deque', dq, [{'op': 'append', 'value': 0}, call, {'op': 'append', 'value': 99}]))
         out.append(W('deque:block:%s' % vname, 'deque', dq, in_block([{'op': 'popleft'}, {'op': 'append', 'value': new}]) + [{'op': 'append', 'value': 99}]))
+        # a full bounded deque: the push and the discard at the other end are one atomic step
+        bounded = dict(SETTINGS, maxlen=3)
+        for cname, call in (('append', {'op': 'append', 'value': new}), ('appendleft', {'op': 'appendleft', 'value': new}),
+                            ('extend', {'op': 'extend', 'values': [new, 9]})):
+            out.append(W('deque:bounded-%s:%s' % (cname, vname), 'deque', dq, [call, {'op': 'append', 'value': 99}], settings=bounded))
     # Index
     for vname, old, new in (('inline', 5, 6), ('file', BIG, BIG2)):
         ix = [{'op': 'setitem', 'key': 'a', 'value': old}, {'op': 'setitem', 'key': 'b', 'value': new}]
@@ -207,6 +212,8 @@ def inspect(directory, kind, wl, k, clock):
     units = units_of_program(program)
     done_idx = set(rec['index'] for rec in k['records'])
     ref = c05.make_ref(kind if kind != 'cache' else 'cache')
+    if kind == 'deque':
+        ref.maxlen = (wl.get('settings') or {}).get('maxlen')
     if kind == 'cache':
         ref.cull_limit = 10
     # the setup ran with lazy culling as well (same settings), so the reference replays it the same way
@@ -313,7 +320,8 @@ def classify(viol, wl, k):
     # only a kill inside a BLOCK qualifies: a user block of the workload, or a method that is a block itself
     unit = [u for u in units_of_program(wl['program']) if u[0] <= k['started'] <= u[1]]
     is_block = bool(unit) and unit[0][0] != unit[0][1]
-    lib_block = (wl['kind'], wl['program'][k['started']]['op']) in (('index', 'popitem'),)
+    # (Index.popitem, and Deque.append/appendleft/extend on a bounded deque, are transact blocks inside the library)
+    lib_block = (wl['kind'], wl['program'][k['started']]['op']) in (('index', 'popitem'), ('deque', 'append'), ('deque', 'appendleft'), ('deque', 'extend'))
     if not (is_block or lib_block):
         return viol
     ev = k['events'][e0:] if k.get('started_depth', 0) == 0 else None
